@@ -74,10 +74,13 @@ def handle (j : Json) : Except String Json := do
         fs := runKilled mode size (fun (v : Nat) => v) victim (← jNat c) fs inputs
         outs := outs.push (Json.mkObj [("fs", snapshot fs keys)])
       | .arr #[.str "run"] =>
-        let r := run mode size (fun (v : Nat) => v) fs inputs
-        fs := r.fs
-        outs := outs.push (Json.mkObj [("out", outJ r.out),
-          ("calls", .arr (r.calls.map Json.str).toArray), ("fs", snapshot fs keys)])
+        match parallelise Gen.refusesDuplicateKeys mode size (fun (v : Nat) => v) fs inputs with
+        | none =>
+          outs := outs.push (Json.mkObj [("out", .str "refused"), ("calls", .arr #[]), ("fs", snapshot fs keys)])
+        | some r =>
+          fs := r.fs
+          outs := outs.push (Json.mkObj [("out", outJ r.out),
+            ("calls", .arr (r.calls.map Json.str).toArray), ("fs", snapshot fs keys)])
       | _ => throw s!"bad script step {st.compress}"
     pure (.arr outs)
 
